@@ -557,6 +557,11 @@ func signature(d *Decl, v verdict) string {
 		if v.near {
 			return "float-rounding-visible"
 		}
+		if v.kind == "value" && e.K == "bin" && (opGroup(e.Op) == "arith" || e.Op == "/") && typedFloatDoubleRounding(e) {
+			// typed float or complex operands: every operation on the parts is
+			// rounded to 512 bits and the result is then rounded to the type
+			return "float-rounding-visible"
+		}
 		if d.T != "" {
 			if w := compare((&Decl{E: e}).Program()); w.kind == "" && w.soft {
 				return "float-rounding-visible"
@@ -916,4 +921,98 @@ func goType(e *Expr) string {
 
 func isFloatType(t string) bool {
 	return t == "float32" || t == "float64" || t == "complex64" || t == "complex128"
+}
+
+// typedFloatDoubleRounding decides, by recomputation, whether the value
+// difference of the operation e = X op Y on operands of a float or complex
+// type is exactly the recorded finding float-rounding-visible: Scriggo holds
+// the operands exactly as go/constant does, and its result is what the
+// operations on the parts give when each of them is executed by big.Float at
+// 512 bits and the parts are then rounded to the type, while Go rounds the
+// exact result once.
+func typedFloatDoubleRounding(e *Expr) bool {
+	if e.HasRef() {
+		return false
+	}
+	t := goType(e)
+	if !isFloatType(t) {
+		return false
+	}
+	zero := new(big.Rat)
+	or0 := func(x *big.Rat) *big.Rat {
+		if x == nil {
+			return zero
+		}
+		return x
+	}
+	var val [2][2]*big.Float
+	for i, o := range []*Expr{e.X, e.Y} {
+		oe := o
+		if goType(o) != t {
+			oe = &Expr{K: "conv", Kind: t, X: o}
+		}
+		p := (&Decl{E: oe}).Program()
+		sv, gv := scEval(p), goEval(p)
+		if sv.Err != "" || gv.Err != "" || !sv.IsNum || gv.Re == nil {
+			return false
+		}
+		if sv.Re.Cmp(gv.Re) != 0 || or0(sv.Im).Cmp(or0(gv.Im)) != 0 {
+			return false // an operand differs
+		}
+		val[i] = [2]*big.Float{new(big.Float).SetPrec(512).SetRat(gv.Re), new(big.Float).SetPrec(512).SetRat(or0(gv.Im))}
+		if x, _ := val[i][0].Rat(nil); x.Cmp(gv.Re) != 0 {
+			return false // not exact at 512 bits
+		}
+		if x, _ := val[i][1].Rat(nil); x.Cmp(or0(gv.Im)) != 0 {
+			return false
+		}
+	}
+	rp := (&Decl{E: e}).Program()
+	r, gr := scEval(rp), goEval(rp)
+	if r.Err != "" || gr.Err != "" || !r.IsNum || gr.Re == nil {
+		return false
+	}
+	nf := func() *big.Float { return new(big.Float).SetPrec(512) }
+	mul := func(x, y *big.Float) *big.Float { return nf().Mul(x, y) }
+	add := func(x, y *big.Float) *big.Float { return nf().Add(x, y) }
+	sub := func(x, y *big.Float) *big.Float { return nf().Sub(x, y) }
+	a, b, c, d := val[0][0], val[0][1], val[1][0], val[1][1]
+	var re, im *big.Float
+	switch e.Op {
+	case "+":
+		re, im = add(a, c), add(b, d)
+	case "-":
+		re, im = sub(a, c), sub(b, d)
+	case "*":
+		re, im = sub(mul(a, c), mul(b, d)), add(mul(b, c), mul(a, d))
+	case "/":
+		sq := add(mul(c, c), mul(d, d))
+		if sq.Sign() == 0 {
+			return false
+		}
+		re = nf().Quo(add(mul(a, c), mul(b, d)), sq)
+		im = nf().Quo(sub(mul(b, c), mul(a, d)), sq)
+		if d.Sign() == 0 && b.Sign() == 0 {
+			re, im = nf().Quo(a, c), nf()
+		}
+	default:
+		return false
+	}
+	is32 := t == "float32" || t == "complex64"
+	toType := func(f *big.Float) *big.Rat {
+		if is32 {
+			x, _ := f.Float32()
+			return new(big.Rat).SetFloat64(float64(x))
+		}
+		x, _ := f.Float64()
+		return new(big.Rat).SetFloat64(x)
+	}
+	wr, wi := toType(re), toType(im)
+	if wr == nil || wi == nil {
+		return false
+	}
+	if r.Re.Cmp(wr) != 0 || or0(r.Im).Cmp(wi) != 0 {
+		return false // not what the 512 bit operations give
+	}
+	return r.Re.Cmp(gr.Re) != 0 || or0(r.Im).Cmp(or0(gr.Im)) != 0
 }
